@@ -316,13 +316,15 @@ func outputDiscipline(v *Verdict, d *DeclSpec, r *OpResult, label string, argv [
 		return // the error value has no text of its own (typed nil): what is printed for it is not fixed
 	}
 	if faulty {
-		// the descriptor failed: what did arrive must be a prefix of the full text
+		// the descriptor failed: what did arrive must be bytes of the full text, in order
 		full := string(ref.Fd2)
 		if isHelp {
 			full = string(ref.Fd1)
 		}
-		if !strings.HasPrefix(full, want) {
-			v.fail("c04:garbled-output-under-fd-fault", fmt.Sprintf("with a failing descriptor the bytes that arrived (%s) are not a prefix of the text written without the fault (%s): %s", q(clip(want, 200)), q(clip(full, 200)), desc))
+		// (not necessarily a prefix: a writer that goes on after a failed write, or
+		// writes the text in pieces, legitimately leaves a hole)
+		if !isSubsequence(want, full) {
+			v.fail("c04:garbled-output-under-fd-fault", fmt.Sprintf("with a failing descriptor the bytes that arrived (%s) are not part of the text written without the fault (%s), in its order: %s", q(clip(want, 200)), q(clip(full, 200)), desc))
 		}
 		return
 	}
@@ -335,6 +337,17 @@ func outputDiscipline(v *Verdict, d *DeclSpec, r *OpResult, label string, argv [
 	if strings.TrimSpace(rest) != "" {
 		v.fail("c04:error-printed-more-than-once", fmt.Sprintf("%s must contain the error text exactly once and nothing else, extra output %s: %s", wantName, q(clip(rest, 300)), desc))
 	}
+}
+
+// isSubsequence: can a be obtained from b by leaving bytes out?
+func isSubsequence(a, b string) bool {
+	i := 0
+	for j := 0; j < len(b) && i < len(a); j++ {
+		if a[i] == b[j] {
+			i++
+		}
+	}
+	return i == len(a)
 }
 
 func (propC04) Judge(sc *Scenario) *Verdict {
@@ -454,7 +467,13 @@ func (propC04) Judge(sc *Scenario) *Verdict {
 			v.fail("c04:untyped-rejection", fmt.Sprintf("a rejection by the parser must be a *flags.Error, got %s %q for argv=%q", r.Err, clip(string(r.Msg), 200), argv))
 		}
 	}
-	if r.Err == "flags.Error" && r.ErrType == "unknown" && r.Injected == 0 {
+	posConv := false
+	for _, a := range bArgs(sc) {
+		if a.Kind != "string" && a.Kind != "[]string" && (strings.Contains(string(r.Msg), "strconv.") || strings.Contains(string(r.Msg), "time: ")) {
+			posConv = true // a positional word that does not convert: the statement names no type for that
+		}
+	}
+	if r.Err == "flags.Error" && r.ErrType == "unknown" && r.Injected == 0 && !posConv {
 		v.fail("c04:untyped-rejection", fmt.Sprintf("the rejection carries ErrUnknown, not a documented type: %q for argv=%q env=%v", clip(string(r.Msg), 200), argv, env))
 	}
 	if !v.OK {
